@@ -25,6 +25,17 @@ def hexNat (s : String) : Option Nat :=
     | some a, some d => some (16 * a + d)
     | _, _ => none) (some 0)
 
+/-- tail-recursive hex decoding (tables are up to 1 MB of hex) -/
+def unhexGo : List Char → List Nat → Option (List Nat)
+  | [], acc => some acc.reverse
+  | [_], _ => none
+  | a :: b :: rest, acc =>
+    match hexVal a, hexVal b with
+    | some x, some y => unhexGo rest ((16 * x + y) :: acc)
+    | _, _ => none
+
+def unhexTR (s : String) : Option (List Nat) := if s == "-" then some [] else unhexGo s.toList []
+
 def floatOfBitsHex (s : String) : Option Float := (hexNat s).map fun n => Float.ofBits n.toUInt64
 
 /-- exact value of a finite binary64 -/
@@ -286,7 +297,7 @@ def handleLut (toks : List String) : String :=
         else if !(modelErr ()) then "MODEL-DIFF model builds the table, impl=err"
         else s!"ok {sig}-err"
       else if !res.startsWith "ok:" then "BAD-LINE" else
-      match unhex (res.drop 3).toString, unhex probeRes with
+      match unhexTR (res.drop 3).toString, unhexTR probeRes with
       | some tabB, some prB =>
         let vals := chunkVals t (size + 1) tabB []
         if vals.length ≠ size then "BAD-LINE" else
@@ -328,7 +339,7 @@ def rawConvert (t : OutT) (alloc : Nat) (signed : Bool) (sample : Nat) : Option 
 def handleVec (toks : List String) : String :=
   match toks with
   | [allocS, storedS, signedS, tS, modS, voiS, fnS, sS, iS, wS, cS, via, dataS, "R", res] =>
-    match allocS.toNat?, storedS.toNat?, signedS.toNat?, parseT tS, parseFn fnS, parsePar sS iS wS cS, unhex dataS with
+    match allocS.toNat?, storedS.toNat?, signedS.toNat?, parseT tS, parseFn fnS, parsePar sS iS wS cS, unhexTR dataS with
     | some alloc, some stored, some sg, some t, some fn, some p, some data =>
       let signed := sg == 1
       let samples : List Nat :=
@@ -352,7 +363,7 @@ def handleVec (toks : List String) : String :=
       if res == "err" then
         if modelErr then s!"ok {sig}-err" else "MODEL-DIFF model converts, impl=err"
       else if !res.startsWith "ok:" then "BAD-LINE" else
-      match unhex (res.drop 3).toString with
+      match unhexTR (res.drop 3).toString with
       | none => "BAD-LINE"
       | some outB =>
         let vals := chunkVals t (samples.length + 1) outB []
@@ -388,4 +399,25 @@ def handle (line : String) : String :=
   | "vec" :: rest => handleVec rest
   | _ => "BAD-LINE"
 
-def main : IO Unit := Driver.run handle
+partial def profLoop (h : IO.FS.Stream) : IO Unit := do
+  let line ← h.getLine
+  if line.isEmpty then return ()
+  let t0 ← IO.monoMsNow
+  let toks := tokens line
+  IO.eprintln s!"tokens {toks.length}"
+  let t1 ← IO.monoMsNow
+  let res := toks.getD 13 ""
+  let b := unhexTR (res.drop 3).toString
+  IO.eprintln s!"unhex {(b.getD []).length}"
+  let t2 ← IO.monoMsNow
+  let vals := chunkVals .f64 100000 (b.getD []) []
+  IO.eprintln s!"chunk {vals.length}"
+  let t3 ← IO.monoMsNow
+  let r := handle ((line.splitOn " ").drop 1 |> " ".intercalate)
+  IO.eprintln s!"handle {r.length}"
+  let t4 ← IO.monoMsNow
+  IO.eprintln s!"tokens {t1 - t0} unhex {t2 - t1} chunk {t3 - t2} handle {t4 - t3}"
+  profLoop h
+
+def main (args : List String) : IO Unit := do
+  if args == ["prof"] then profLoop (← IO.getStdin) else Driver.run handle
